@@ -94,6 +94,15 @@ def call(entry, formula, data, drop, overrides):
         return ModelSpec.from_spec(formula).get_model_matrix(data, drop_rows=drop, **overrides)
     if entry == "PandasMaterializer.get_model_matrix":
         return PandasMaterializer(data).get_model_matrix(formula, drop_rows=drop, **overrides)
+    if entry in ("model_matrix(matrix, **overrides)", "model_matrix(spec, **overrides)", "PandasMaterializer.get_model_matrix(matrix, **overrides)"):
+        # a matrix built earlier (on clean data, default policy) is re-used as the specification; the overrides must win
+        clean = make_frame(len(data), (), (), (), "default")
+        first = model_matrix(formula, clean)
+        if entry == "model_matrix(matrix, **overrides)":
+            return model_matrix(first, data, drop_rows=drop, **overrides)
+        if entry == "model_matrix(spec, **overrides)":
+            return model_matrix(first.model_spec, data, drop_rows=drop, **overrides)
+        return PandasMaterializer(data).get_model_matrix(first, drop_rows=drop, **overrides)
     raise AssertionError(entry)
 
 
@@ -292,6 +301,48 @@ def drv_narwhals(c, ctx, col):
     col.sample(detail)
 
 
+def drv_2d(c, ctx, col):
+    """a factor that evaluates to a 2-D array: a row is null iff one of its cells is NaN (infinities are not nulls)"""
+    n = 3
+    cells = [c.pick([1.5, np.nan, np.inf, -np.inf]) for _ in range(2 * n)]
+    m = np.array(cells, dtype=float).reshape(n, 2)
+    a_null = c.pick([(), (1,)])
+    policy = c.pick(["drop", "raise"])
+    output = "pandas"
+    dropname = "empty"
+    df = make_frame(n, a_null, (), (), "strings")
+    nulls = {i for i in range(n) if np.isnan(m[i]).any()} | set(a_null)
+    key = "2d m=%s a_null=%s policy=%s output=%s drop=%s" % (m.tolist(), a_null, policy, output, dropname)
+    detail = {"formula": "m + a", "m": m.tolist(), "a_null": a_null, "policy": policy, "output": output, "drop_rows": dropname}
+    caller = DROPSETS[dropname]
+    drop = set(caller) if caller is not None else None
+    kept = [i for i in range(n) if i not in nulls]
+    if nulls and kept:
+        col.interesting()
+    err, got = None, None
+    try:
+        got = model_matrix("m + a", df, context={"m": m}, na_action=policy, output=output, drop_rows=drop)
+    except Exception as e:  # noqa
+        err = e
+    if policy == "raise":
+        if bool(nulls) != (err is not None):
+            col.violation(key, dict(detail, raised=repr(err), null_rows=sorted(nulls)), sig="2d:raise:" + ("no-error-despite-nulls" if nulls else "error-without-nulls"))
+        return
+    if err is not None:
+        col.violation(key, dict(detail, error=repr(err)), sig="2d:drop:raised:" + type(err).__name__)
+        return
+    G = dense(got)
+    if G.shape[0] != len(kept):
+        col.violation(key, dict(detail, rows=int(G.shape[0]), kept=kept), sig="2d:drop:wrong-row-count")
+        return
+    if output == "pandas" and list(got.index) != list(df.index[kept]):
+        col.violation(key, dict(detail, index=list(got.index), expected=list(df.index[kept])), sig="2d:drop:wrong-index")
+        return
+    if drop is not None and {int(i) for i in drop} != set(range(n)) - set(kept):
+        col.violation(key, dict(detail, drop_set_after=sorted(int(i) for i in drop)), sig="2d:drop:drop-set-not-updated")
+    col.sample(detail)
+
+
 def drv_reuse(c, ctx, col):
     """a fitted spec applied to data with nulls (drop policy travels with the spec)"""
     n = ctx["n"]
@@ -358,16 +409,20 @@ def drv_policies(c, ctx, col):
     y_null = pattern(c, n, 1) if "y" in FORMULAS[formula][0] else ()
     index_kind = c.pick(["default", "nonunique"])
     output = c.pick(ctx["outputs"])
+    dropname = c.pick(["none", "{0}", "{0,2}"]) if policy == "raise" else "none"
+    caller = DROPSETS[dropname]
+    if "hashed" in formula and "matrix" in entry or "hashed" in formula and "spec" in entry:
+        raise Skip()
     df = make_frame(n, a_null, A_null, y_null, index_kind)
     nulls = null_rows(formula, a_null, A_null, y_null)
-    key = "policy=%s %r a_null=%s A_null=%s y_null=%s index=%s entry=%s output=%s" % (policy, formula, a_null, A_null, y_null, index_kind, entry, output)
+    key = "policy=%s %r a_null=%s A_null=%s y_null=%s index=%s entry=%s output=%s drop=%s" % (policy, formula, a_null, A_null, y_null, index_kind, entry, output, dropname)
     detail = {"formula": formula, "policy": policy, "a_null": a_null, "A_null": A_null, "y_null": y_null, "index": index_kind,
               "entry": entry, "output": output}
     if nulls:
         col.interesting()
     err = None
     try:
-        got = call(entry, formula, df, None, {"output": output, "na_action": policy})
+        got = call(entry, formula, df, set(caller) if caller is not None else None, {"output": output, "na_action": policy})
     except Exception as e:  # noqa
         err = e
     if policy == "raise":
@@ -393,7 +448,8 @@ def subchecks(tier, seed):
     quick = tier == "quick"
     n = 3 if quick else 4
     allf = list(FORMULAS)
-    pe = ["model_matrix", "ModelSpec.get_model_matrix(**overrides)", "PandasMaterializer.get_model_matrix"]
+    pe = ["model_matrix", "ModelSpec.get_model_matrix(**overrides)", "model_matrix(matrix, **overrides)", "PandasMaterializer.get_model_matrix",
+          "model_matrix(spec, **overrides)", "PandasMaterializer.get_model_matrix(matrix, **overrides)"]
     return [
         Sub("drop-core", drv_core, {"n": n, "formulas": allf, "dropsets": ["none", "{0}", "{0,2}"] if quick else list(DROPSETS)},
             shard_depth=3, bounds={"rows": n, "null_patterns": "all 2^(2n) over a, A; <=1 null in y", "index_kinds": list(INDEXES), "formulas": allf}),
@@ -405,9 +461,11 @@ def subchecks(tier, seed):
         Sub("drop-narwhals", drv_narwhals, {"n": 3, "formulas": [f for f in allf if "hashed" not in f]}, shard_depth=3,
             bounds={"rows": 3, "materializer": "narwhals on a pandas frame / on a pyarrow table", "null_patterns": "<= 2 nulls over a, A; <= 1 in y",
                     "policies": ["drop", "raise"]}),
+        Sub("drop-2d-factor", drv_2d, {}, shard_depth=3,
+            bounds={"rows": 3, "cells": "every 3x2 array over {1.5, NaN, +inf, -inf}", "plus": "<= 1 null in a", "policies": ["drop", "raise"]}),
         Sub("drop-reuse", drv_reuse, {"n": 3, "formulas": [f for f in allf if "hashed" not in f], "max_nulls": 1 if quick else 2}, shard_depth=3,
             bounds={"rows": 3, "fit": "clean frame", "apply": "frame with <= %d nulls over a, A; <= 1 in y" % (1 if quick else 2)}),
-        Sub("policies", drv_policies, {"n": 3 if quick else 4, "formulas": allf, "entries": pe[:2] if quick else pe,
+        Sub("policies", drv_policies, {"n": 3 if quick else 4, "formulas": allf, "entries": pe[:3] if quick else pe,
                                        "outputs": ["pandas"] if quick else ["pandas", "sparse"]}, shard_depth=3,
             bounds={"policies": ["raise", "ignore"], "null_patterns": "all over a, A"}),
     ]
